@@ -5,11 +5,13 @@
 //! `grafeo-sim digest <property> [--seed N] [--runs N]`   (determinism self-check helper)
 
 mod checks;
+mod eng_disk;
 mod eng_store;
 mod eng_txm;
 mod fw;
 mod model_graph;
 mod prng;
+mod probe;
 
 use fw::Tier;
 
@@ -69,6 +71,9 @@ fn parse_args(rest: &[String]) -> Args {
 fn main() {
     fw::install_panic_hook();
     let argv: Vec<String> = std::env::args().collect();
+    if argv.len() >= 2 && argv[1] == "probe" {
+        std::process::exit(probe::run());
+    }
     if argv.len() < 3 {
         eprintln!("usage: grafeo-sim check <property> [--tier quick|thorough] [--seed N] [--runs N] | replay <file>");
         std::process::exit(2);
